@@ -200,6 +200,47 @@ def run(ctx: Any, prog: Program) -> None:
         hz = chunk_index_hazards(wfn)
         ctx.check('C11.L18', not hz, bsp, hz[0][0] if hz else wfn, f'BSP.{wname}: ' + (hz[0][1] if hz else 'no record index is derived from a chunk-list length') +
                   ('; references written with that index point at the wrong record after a rebuild' if hz else ''), func=f'BSP.{wname}', text=f'{wname}: record indexes')
+    # ---- L19: de-duplication tables of the writers ----------------------------------------------------------------------------------
+    # `try: ind = table[key]  except KeyError: ind = table[key] = next; out.append(pack(<fields of obj>))` re-uses a record already written.
+    # That is only sound when equal keys imply equal records: the key is the object itself, or covers every field of it that is packed.
+    ctx.rule('C11.L19', 'a writer re-uses an already written record only for the same object (or a key covering every packed field)', floor=1)
+    n19 = 0
+    for wname, wfn in bsp.methods('BSP').items():
+        if not wname.startswith('_lmp_write'):
+            continue
+        for tr in [t for t in ast.walk(wfn) if isinstance(t, ast.Try) and len(t.handlers) == 1 and dotted(t.handlers[0].type) == 'KeyError']:
+            look = [a for a in tr.body if isinstance(a, ast.Assign) and isinstance(a.value, ast.Subscript) and isinstance(a.value.value, ast.Name)]
+            if len(look) != 1:
+                continue
+            table, key = look[0].value.value.id, look[0].value.slice
+            packs = [c for st in tr.handlers[0].body for c in ast.walk(st) if isinstance(c, ast.Call) and (dotted(c.func) or '').endswith('pack')]
+            if not packs:
+                continue
+            # the object whose fields are packed
+            bases = {}
+            for c in packs:
+                for a in ast.walk(c):
+                    if isinstance(a, ast.Attribute) and isinstance(a.value, ast.Name) and a.value.id not in ('self', 'struct'):
+                        bases.setdefault(a.value.id, set()).add(a.attr)
+            if len(bases) != 1:
+                continue
+            obj, packed = next(iter(bases.items()))
+            kexpr = key
+            if isinstance(kexpr, ast.Name) and kexpr.id != obj:
+                defs_ = [a.value for a in ast.walk(wfn) if isinstance(a, ast.Assign) and len(a.targets) == 1 and dotted(a.targets[0]) == kexpr.id]
+                kexpr = defs_[-1] if defs_ else kexpr
+            n19 += 1
+            if isinstance(kexpr, ast.Name) and kexpr.id == obj:
+                ctx.check('C11.L19', True, bsp, look[0], 'keyed by the object itself', func=f'BSP.{wname}', text=f'{wname}: {table} key')
+                continue
+            kfields = {a.attr for a in ast.walk(kexpr) if isinstance(a, ast.Attribute) and isinstance(a.value, ast.Name) and a.value.id == obj}
+            missing = sorted(packed - kfields)
+            ctx.shape('C11.L19', bool(kfields), bsp, look[0], f'key `{U(key)}` of {table} is the object or built from its fields', func=f'BSP.{wname}', text=f'{wname}: {table} key')
+            if kfields:
+                ctx.check('C11.L19', not missing, bsp, look[0], f'BSP.{wname} re-uses the record already written for `{U(kexpr)[:50]}`, but a record also carries {missing}: two `{obj}` objects that agree in the key and differ '
+                          'there collapse into the first one written, and everything that refers to the second now points at the wrong data', func=f'BSP.{wname}', text=f'{wname}: {table} key')
+    if n19 < 1:
+        raise AnalysisError('L19: no de-duplicating writer found (BSP._lmp_write_texinfo confirmed by hand)')
     # ---- L1 / L2 -------------------------------------------------------------------------------------------
     for v in views:
         if v in NO_WIRE:
@@ -588,6 +629,8 @@ def run(ctx: Any, prog: Program) -> None:
 
 
 MUTANTS = [
+    {'id': 'texdata_deduplicated_by_material', 'file': 'bsp.py', 'find': "            try:\n                ind = texdata_ind[tdat]\n            except KeyError:\n                ind = texdata_ind[tdat] = next_ind", 'replace': "            mat_key = tdat.mat.casefold()\n            try:\n                ind = texdata_ind[mat_key]\n            except KeyError:\n                ind = texdata_ind[mat_key] = next_ind", 'expect': 'C11.L19'},
+    {'id': 'ok_texdata_deduplicated_by_all_fields', 'file': 'bsp.py', 'find': "            try:\n                ind = texdata_ind[tdat]\n            except KeyError:\n                ind = texdata_ind[tdat] = next_ind", 'replace': "            full_key = (tdat.mat, tdat.reflectivity, tdat.width, tdat.height)\n            try:\n                ind = texdata_ind[full_key]\n            except KeyError:\n                ind = texdata_ind[full_key] = next_ind", 'expect': None},
     {'id': 'texdata_index_from_list_length', 'file': 'bsp.py', 'find': "                ind = texdata_ind[tdat] = next_ind\n                next_ind += 1\n", 'replace': "                ind = texdata_ind[tdat] = len(texdata_list) // 2\n", 'expect': 'C11.L18'},
     {'id': 'ents_output_if_four_or_more_commas', 'file': 'bsp.py', 'find': "            elif value.count(',') == 4:", 'replace': "            elif value.count(',') >= 4:", 'expect': 'C11.L16'},
     {'id': 'surfedge_slot0_reserved_conditionally', 'file': 'bsp.py', 'find': "        edges: list[Edge] = [Edge(first_vert, first_vert)]\n", 'replace': "        edges: list[Edge] = []\n        if surf_edges and isinstance(surf_edges[0], RevEdge):\n            edges.append(Edge(first_vert, first_vert))\n", 'expect': 'C11.L17'},
